@@ -180,3 +180,62 @@ func VerifC05ConcurrentEval(v *vrt.T) {
 	v.Observe("err", errs[0])
 	v.Reach("end")
 }
+
+// verifC05ValueFuncs: built-in functions whose bodies the engine can run on symbolic
+// values, with the argument kinds of one of their signatures (i int64, f float64, s string
+// of 0..2 bytes, b bool, d duration).
+var verifC05ValueFuncs = []struct {
+	name string
+	args string
+}{
+	{"abs", "f"}, {"ceil", "f"}, {"floor", "f"}, {"trunc", "f"}, {"max", "ff"}, {"min", "ff"},
+	{"int", "s"}, {"int", "b"}, {"int", "d"}, {"float", "i"}, {"float", "b"},
+	{"bool", "s"}, {"bool", "i"}, {"string", "b"},
+	{"duration", "id"}, {"duration", "sd"}, {"duration", "d"},
+	{"if", "bii"}, {"if", "bss"}, {"isPresent", "i"},
+	{"strLength", "s"}, {"strContains", "ss"}, {"strHasPrefix", "ss"}, {"strHasSuffix", "ss"}, {"strIndex", "ss"},
+	{"strLastIndex", "ss"}, {"strCount", "ss"}, {"strTrimPrefix", "ss"}, {"strTrimSuffix", "ss"},
+	{"strReplace", "sssi"}, {"strSubstring", "sii"},
+	{"spread", "f"}, {"count", ""},
+}
+
+// VerifC05FunctionValues: a built-in function applied to ARBITRARY values of the kinds of
+// one of its signatures (every int64 / float64 bit pattern / duration, strings of 0..2
+// arbitrary bytes), passed as fields of the point: Type, Eval and the typed entry points
+// return a value or an error, never a panic, and a second evaluation still works.
+func VerifC05FunctionValues(v *vrt.T) {
+	fc := verifC05ValueFuncs[v.Choose("function", len(verifC05ValueFuncs))]
+	names := []string{"a", "b", "c", "d"}
+	scope := NewScope()
+	var args []ast.Node
+	for i := 0; i < len(fc.args); i++ {
+		switch fc.args[i] {
+		case 'i':
+			scope.Set(names[i], v.Int64("int"))
+		case 'f':
+			scope.Set(names[i], v.Float64("float"))
+		case 's':
+			scope.Set(names[i], v.String("string", v.Choose("len", 3)))
+		case 'b':
+			scope.Set(names[i], v.Bool("bool"))
+		case 'd':
+			scope.Set(names[i], time.Duration(v.Int64("duration")))
+		}
+		args = append(args, &ast.ReferenceNode{Reference: names[i]})
+	}
+	expr, err := NewExpression(&ast.FunctionNode{Type: ast.GlobalFunc, Func: fc.name, Args: args})
+	v.Assert(err == nil, "the call compiles")
+	if err != nil {
+		return
+	}
+	_, terr := expr.Type(scope)
+	_, e1 := expr.Eval(scope)
+	_, e2 := expr.EvalBool(scope)
+	_, e3 := expr.EvalInt(scope)
+	_, e4 := expr.EvalFloat(scope)
+	_, e5 := expr.EvalString(scope)
+	_, e6 := expr.EvalDuration(scope)
+	_, e7 := expr.Eval(scope)
+	v.Observe("errs", terr != nil, e1 != nil, e2 != nil, e3 != nil, e4 != nil, e5 != nil, e6 != nil, e7 != nil)
+	v.Reach("end")
+}
